@@ -10,6 +10,7 @@ import RsassModel.Dest.Lemmas
 import RsassModel.Dest.Refine
 import RsassModel.Dest.RefineLost
 import RsassModel.Dest.LemmasMerge
+import RsassModel.Dest.LemmasFlat
 import RsassModel.Dest.Text
 namespace C20
 open Dest
@@ -298,6 +299,32 @@ theorem deliver_keeps_order_merge (q : Quirks) (hh : q.atRuleHoists = false) (op
     (h : deliver q ops stk root its = .ok (stk', root')) :
     NV ops (view stk' root') = NV ops (view stk root ++ flatItems (pathOf stk) its) ∧ skel stk' = skel stk :=
   deliver_view_merge q hh ops hassoc stk root its stk' root' h
+
+/-- `spec_output_is_flat` — FLATNESS under the merging specification, for ARBITRARY programs and
+every selector algebra: in the output TREE of a successful run no `@media` item sits directly in
+the body of an `@media` item, at any depth (`flatOKs`); together with
+`bubble_preserves_order_spec` the bubbled declarations are under ONE `@media` with the merged
+query.  (An `@media` inside a `@supports`/unknown at-rule inside an `@media` is not "directly
+inside" and stays, as in Sass.) -/
+theorem spec_output_is_flat (ops : Ops σ) (p : List (Core σ)) (st : St σ)
+    (h : emitTop Quirks.spec ops p = .ok st) : flatOKs st.root = true :=
+  (emitBody_flat Quirks.spec rfl rfl ops {} p {} st h ⟨rfl, rfl⟩).2
+
+/-- the invariant behind it, from any flat state with any open frames -/
+theorem emit_keeps_flat (q : Quirks) (hh : q.atRuleHoists = false) (hm : q.mediaInMediaNested = false)
+    (ops : Ops σ) (c : SelCtx σ) (b : List (Core σ)) (st st' : St σ)
+    (h : emitBody q ops c b st = .ok st') (hw : WF st) : WF st' :=
+  emitBody_flat q hh hm ops c b st st' h hw
+
+/-- REFUTATION for the code as it is (`Quirks.now`, open finding `mediaInMediaNested`): the
+witness `@media 1 { 2 { @media 3 { 4: 5 } } }` gives a tree that is NOT flat … -/
+theorem now_output_not_flat :
+    (match emitTop Quirks.now natOps mediaWitness with | .ok st => flatOKs st.root | .error _ => true) = false := by
+  rfl
+
+/-- … while the specification's tree for it is. -/
+example : (match emitTop Quirks.spec natOps mediaWitness with | .ok st => flatOKs st.root | .error _ => false) = true := by
+  rfl
 
 /-- an algebra with associative conjunction for the witnesses -/
 def natOpsA : Ops Nat := { natOps with mergeMedia := fun a b => a + b }
